@@ -247,7 +247,7 @@ def run_c15(ck):
     ck.extra["mc"] = [{"module": "MC_Symbols", "states": r.distinct, "ok": r.ok}]
     if not r.ok:
         ck.violation("MC:MC_Symbols:" + str(r.violated), r.out[-2500:], {"tlc": r.out[-6000:]})
-    n = 2500 if quick else 60000
+    n = 1500 if quick else 40000
     progs = [genasm.gen_symbol_program(rng) for _ in range(n)]
     jobs = [{"mode": "asm", "files": {"main.asm": genasm.render_program(P)}, "roots": ["main.asm"],
              "want": {"messages": False, "spans": False}} for P in progs]
